@@ -10,7 +10,7 @@ from fractions import Fraction as F
 from ..astutil import call_attr, iter_calls, iter_stores, propagate, single_assign_env, walk_local
 from ..exprnf import SQRT3, ExprEval, Poly, Q3, Rat, RatEval, matmul, matvec, mat_eq, poly, rot, rot90
 from ..flow import path_conditions, always_exits
-from ..index import AnalysisError, AnchorMissing, dotted, norm
+from ..index import AnalysisError, AnchorMissing, FuncInfo, dotted, norm
 from ..lattice import HEX, if_chain, unit_steps
 
 I, J = Poly.atom("i"), Poly.atom("j")
@@ -526,6 +526,111 @@ def r13_marker_case_flag_union_axial_only(idx, r):
     r2_affine(idx, Only(r, ["StructuredGrid._isAxialOnly"]))
 
 
+def r14_boundary_data_declared_where_rotation_looks(idx, r):
+    """HexBlock._rotateBoundaryParameters chooses the vectors it pivots from the parameter TABLE: the block parameters found at
+    ParamLocation.CORNERS and at ParamLocation.EDGES (R08.4 boundary:corners-and-edges, R08.9 atLocation).  So a block parameter that is
+    declared - by a word of its public name or of its description - to hold one datum per corner / per edge of the block must have an
+    effective location word (`location=` of defParam, else the one of the builder it is defined through: `location or default`) that
+    contains CORNERS / EDGES; otherwise a rotation by k steps moves the pins, the other boundary vectors and the orientation but leaves
+    this vector where it was.  Family: every defParam of every function that supplies BLOCK parameter definitions (the one Block.pDefs
+    is built from, and every function registered under the key `Block` in a parameter-definition dict)."""
+    import re
+    PL = idx.cls("armi.reactor.parameters.parameterDefinitions.ParamLocation")
+    flags = {}
+    for nme, v in PL.attrs.items():
+        try:
+            val = idx.fold(PL.module, v)
+        except AnalysisError:
+            continue
+        if isinstance(val, int) and not isinstance(val, bool):
+            flags[nme] = val
+    if "CORNERS" not in flags or "EDGES" not in flags:
+        raise AnchorMissing("ParamLocation.CORNERS / ParamLocation.EDGES")
+    WORDS = {"corner": "CORNERS", "corners": "CORNERS", "edge": "EDGES", "edges": "EDGES"}
+
+    def word_of(m, e):
+        """location expression -> flag word (int); None when outside the fragment"""
+        if isinstance(e, ast.Attribute) and (dotted(e.value) or "").split(".")[-1] == "ParamLocation" and e.attr in flags:
+            return flags[e.attr]
+        if isinstance(e, ast.BinOp) and isinstance(e.op, (ast.BitOr, ast.BitAnd, ast.BitXor)):
+            a, b = word_of(m, e.left), word_of(m, e.right)
+            if a is None or b is None:
+                return None
+            return a | b if isinstance(e.op, ast.BitOr) else (a & b if isinstance(e.op, ast.BitAnd) else a ^ b)
+        if isinstance(e, ast.Constant) and e.value is None:
+            return 0
+        if isinstance(e, ast.Name) and e.id in m.consts:
+            return word_of(m, m.consts[e.id])
+        return None
+
+    # which functions supply block parameter definitions
+    blk = idx.cls("armi.reactor.blocks.Block")
+    pd = blk.attrs.get("pDefs")
+    if not (isinstance(pd, ast.Call) and dotted(pd.func)):
+        raise AnchorMissing("Block.pDefs = <block parameter definitions>()")
+    core_fn = idx.resolve_name(blk.module, dotted(pd.func))
+    if not isinstance(core_fn, FuncInfo):
+        raise AnchorMissing(f"Block.pDefs: `{dotted(pd.func)}` does not resolve to a function")
+    suppliers = {(core_fn.module.name, core_fn.name)}
+    for m in idx.modules.values():
+        if ".tests" in m.name or not m.name.startswith("armi."):
+            continue
+        for d in ast.walk(m.tree):
+            if not isinstance(d, ast.Dict):
+                continue
+            for k, v in zip(d.keys, d.values):
+                if k is not None and (dotted(k) or "").split(".")[-1] == "Block" and isinstance(v, ast.Call) and isinstance(v.func, ast.Name) and v.func.id in m.functions:
+                    suppliers.add((m.name, v.func.id))
+    if len(suppliers) < 4:
+        raise AnchorMissing(f"functions supplying block parameter definitions: only {sorted(suppliers)}")
+    n = 0
+    for mname, fname in sorted(suppliers):
+        m = idx.module(mname)
+        f = m.functions[fname]
+        par = m.parents()
+        for c in walk_local(f.node):
+            if not (isinstance(c, ast.Call) and call_attr(c) == "defParam" and c.args):
+                continue
+            kw = {k.arg: k.value for k in c.keywords}
+            try:
+                name = idx.fold(m, c.args[0])
+            except AnalysisError:
+                continue
+            if not isinstance(name, str):
+                continue
+            desc = kw.get("description", c.args[2] if len(c.args) > 2 else None)
+            dtext = " ".join(x.value for x in ast.walk(desc) if isinstance(x, ast.Constant) and isinstance(x.value, str)) if desc is not None else ""
+            said = {w.lower() for w in re.findall(r"[A-Z]?[a-z]+|[A-Z]+(?![a-z])", name)} | set(re.findall(r"[a-z]+", dtext.lower()))
+            need = sorted({WORDS[w] for w in said if w in WORDS})
+            if not need:
+                continue
+            n += 1
+            key = f"{mname.split('.')[-2]}:{name}:declared-at-{'+'.join(need)}"
+            own = kw.get("location", c.args[3] if len(c.args) > 3 else None)
+            dflt, nd = None, c
+            recv = c.func.value.id if isinstance(c.func.value, ast.Name) else None
+            while nd in par and dflt is None:
+                nd = par[nd]
+                if isinstance(nd, ast.With):
+                    for it in nd.items:
+                        if isinstance(it.context_expr, ast.Call) and call_attr(it.context_expr) == "createBuilder" and isinstance(it.optional_vars, ast.Name) and it.optional_vars.id == recv:
+                            dflt = next((k.value for k in it.context_expr.keywords if k.arg == "location"), ast.Constant(value=None))
+            wo = word_of(m, own) if own is not None else 0
+            wd = word_of(m, dflt) if dflt is not None else None
+            if wo is None or (not wo and wd is None):
+                r.undecided(key, f, f"location of `{name}` not understood (`{norm(own) if own is not None else None}`, builder default `{norm(dflt) if dflt is not None else None}`)", node=c)
+                continue
+            word = wo or wd  # defParam: location or self._defaultLocation
+            shown = norm(own) if wo else (norm(dflt) if dflt is not None else "None")
+            missing = [x for x in need if not word & flags[x]]
+            r.require(not missing, key, f, node=c,
+                      msg=f"block parameter `{name}` ({dtext[:60]!r}) holds one datum per {'/'.join(x.lower()[:-1] for x in need)} of the block but its location is `{shown}`, which does not contain "
+                          f"{'/'.join(missing)}: HexBlock.rotate picks the vectors it pivots by atLocation(CORNERS) and atLocation(EDGES), so after a rotation by k x 60 degrees (k = 1..5) "
+                          f"this vector still has the datum of {(missing or need)[0].lower()[:-1]} n at position n instead of (n + k) % 6, while every other boundary vector, the pins and the orientation have turned")
+    if n < 1:
+        raise AnchorMissing("block parameters declared per corner / per edge")
+
+
 def run(idx, chk):
     chk.explanation = (
         "C08: the two third-core images and the six index rotations are extracted as integer matrices and shown to equal exact 120/60k degree "
@@ -557,3 +662,5 @@ def run(idx, chk):
                  necessary="symmetric images are computed with the grid's real offset; a copy sits at the image cell in the image orientation")
     chk.run_rule("R08.13", "the through-centre marker is found whatever the capitalisation; locations are combined by union; a one-cell axial grid is axial-only", lambda r: r13_marker_case_flag_union_axial_only(idx, r), floor=4,
                  necessary="symmetric images are those of the real cell centres; every corner/edge vector follows a rotation; a cell and its images are classified alike")
+    chk.run_rule("R08.14", "a block parameter declared (by name or description) as per-corner / per-edge data is located at CORNERS / EDGES, where HexBlock.rotate looks for the vectors it pivots", lambda r: r14_boundary_data_declared_where_rotation_looks(idx, r), floor=9,
+                 necessary="rotating a hex block moves its per-corner/per-edge data accordingly: every such vector, not only those the parameter table happens to list at CORNERS/EDGES")
